@@ -40,5 +40,4 @@ ExportAndCheck ==
             /\ (pc = "done" /\ ben) => WF(Doc)
             /\ (pc = "done" /\ w \in ListWriters) => wf
 
-MCBounds == [wr \in {} |-> <<0, 1>>]   \* replaced by the generated configuration module
 =============================================================================
